@@ -583,7 +583,18 @@ def rust_local_opassigns(f):
         if not (e and e[0] == "bin"):
             continue
         a = mir.strip_casts(e[2])
-        if a[0] in ("v", "p") and (a[1] == L or f.local_name(a[1]) == name):
+        inplace = a[0] in ("v", "p") and (a[1] == L or f.local_name(a[1]) == name)
+        if not inplace:
+            # `let x = if c { y - 1 } else { y }` is `let mut x = y; if c { x -= 1 }`: the left operand is what another
+            # definition of the same local assigns as it is
+            for bi2, si2, rv2 in f.defs.get(L, []):
+                if rv2 is None or si2 == "call" or rv2 is rv:
+                    continue
+                o = mir.strip_casts(f.rvalue_expr(rv2))
+                if o == a and o[0] not in ("c",):
+                    inplace = True
+                    break
+        if inplace:
             op = str(e[1])
             for suf in ("WithOverflow", "Unchecked"):
                 op = op.replace(suf, "")
